@@ -957,3 +957,13 @@ def r18_4(ctx):
                           site=ctx.site(ri, 0))
         else:
             ctx.ok("the coordinator only polls the channel (try_recv)", site=ctx.site(ri, 0))
+
+
+@rule("C18", "R18.5", floor=2)
+def r18_5(ctx):
+    """no hang from the progress accounting: whatever was added to the total is matched by a task that reports — every file spawn is
+    preceded by add_total(1), every counted directory is scanned (= C03 R03.2 / R03.9) and the result channel cannot block (R03.8)"""
+    import rules_sched
+    rules_sched.r03_2(ctx)
+    rules_sched.r03_9(ctx)
+    rules_sched.r03_8(ctx)
